@@ -65,7 +65,7 @@ CATALOGUE = {
 }
 
 
-def pick_problem(rng, random_frac=0.35, positive=None, min_p=1, tier="quick"):
+def pick_problem(rng, random_frac=0.35, positive=None, min_p=1, tier="quick", names=None):
     """Return (name, model, theta, x0, t0, tmax, box, positive)."""
     for _ in range(200):
         t0 = rng.choice([0.0, 0.0, 0.0, 1.0, 0.5, 0.25, 2.75])
@@ -91,7 +91,7 @@ def pick_problem(rng, random_frac=0.35, positive=None, min_p=1, tier="quick"):
             if chk is None or chk.min() < 0.0:
                 continue
         else:
-            name = rng.choice(sorted(CATALOGUE))
+            name = rng.choice(sorted(names or CATALOGUE))
             c = CATALOGUE[name]
             if positive and not c["positive"]:
                 continue
@@ -313,7 +313,13 @@ def loss_new(sess, op, step, out, stats, log):
     sname = states[0] if (len(states) == 1 and op.get("state_as_str")) else states
     theta0 = op["theta0"]
     try:
-        obj = cls(theta0, sess.ode, sess.x0.copy(), sess.t0, np.array(op["obs_t"], float), y, sname, **kw)
+        if op.get("obs_as") == "int_array":
+            targ = np.array([int(v) for v in op["obs_t"]], dtype=int)
+        elif op.get("obs_as") == "int_list":
+            targ = [int(v) for v in op["obs_t"]]
+        else:
+            targ = np.array(op["obs_t"], float)
+        obj = cls(theta0, sess.ode, sess.x0.copy(), sess.t0, targ, y, sname, **kw)
     except core.RunTimeout:
         raise
     except Exception as e:
@@ -647,7 +653,16 @@ def fit_call(sess, op, step, out, stats, log):
     ub = np.array(op["ub"], float)
     try:
         c0 = float(obj.cost(start.copy()))
-        xhat = np.asarray(obj.fit(start.copy(), lb=lb.copy(), ub=ub.copy()), float)
+        if op.get("plain_output"):
+            xhat = np.asarray(obj.fit(start.copy(), lb=lb.copy(), ub=ub.copy()), float)
+        else:
+            xhat, info = obj.fit(start.copy(), lb=lb.copy(), ub=ub.copy(), full_output=True)
+            xhat = np.asarray(xhat, float)
+            try:
+                if not bool(info["success"]):
+                    stats["optimiser_reported_failure"] = stats.get("optimiser_reported_failure", 0) + 1   # probe
+            except Exception:
+                pass
         c1 = float(obj.cost(xhat.copy()))
     except core.RunTimeout:
         raise
@@ -662,7 +677,11 @@ def fit_call(sess, op, step, out, stats, log):
         return
     if np.any(xhat < lb - 1e-12) or np.any(xhat > ub + 1e-12) or not np.all(np.isfinite(xhat)):
         out.append(fail("C18.box", step, "fit returned %s outside the box [%s, %s]" % (xhat.tolist(), lb.tolist(), ub.tolist())))
-    if not (c1 <= c0 * (1 + 1e-9) + 1e-12):
+    if not (np.isfinite(c0) and np.isfinite(c1)) and not np.isfinite(c0):
+        # the start lies outside the domain of the cost (e.g. a count likelihood of a slightly negative
+        # prediction): "not worse than its start" has no meaning there
+        stats["start_cost_not_finite"] = stats.get("start_cost_not_finite", 0) + 1
+    elif not (c1 <= c0 + 1e-9 * abs(c0) + 1e-12):
         out.append(fail("C18.descent", step, "cost at the returned point %r exceeds cost at the start %r (start %s -> %s)" % (c1, c0, start.tolist(), xhat.tolist())))
     if op.get("at_truth"):
         truth = np.array(op["truth"], float)
@@ -963,7 +982,7 @@ LOSSES = ["SquareLoss", "NormalLoss", "PoissonLoss", "GammaLoss", "NegBinomLoss"
 
 
 def gen_loss_def(rng, lid, ref, name, theta_true, x0, t0, tmax, box, pos, classes=None, allow_targets=True,
-                 allow_weights=True, force_noise_free=None):
+                 allow_weights=True, force_noise_free=None, force_states=None, min_yhat=1e-3):
     """One loss-object definition (JSON) with its data."""
     classes = classes or LOSSES
     cls = rng.choice(classes)
@@ -971,15 +990,27 @@ def gen_loss_def(rng, lid, ref, name, theta_true, x0, t0, tmax, box, pos, classe
         cls = rng.choice(["SquareLoss", "NormalLoss"])
     n, p = ref.n, ref.p
     obs_t = gen_times(rng, t0, tmax, k=rng.randint(3, 12), uniform=rng.random() < 0.3)
+    obs_as = "float"
+    if rng.random() < 0.2 and tmax >= 4:
+        # whole-number observation times handed over with an integer dtype (days 1, 2, 3, ...)
+        first = int(math.floor(t0)) + 1
+        step = rng.choice([1, 1, 2])
+        ints = [first + j * step for j in range(rng.randint(3, 10)) if first + j * step <= t0 + tmax]
+        if len(ints) >= 3:
+            obs_t = [float(v) for v in ints]
+            obs_as = rng.choice(["int_array", "int_list"])
     ns = rng.choice([1, 1, 2, 2, 3])
     ns = min(ns, n)
     states = rng.sample(ref.state_names, ns)           # any order
+    if force_states:
+        states = list(force_states)
+        ns = len(states)
     X = safe_reference(ref, theta_true, x0, t0, obs_t)
     if X is None:
         return None
     idx = [ref.state_names.index(s) for s in states]
     yhat = X[:, idx]
-    if cls in ("PoissonLoss", "GammaLoss", "NegBinomLoss") and yhat.min() < 1e-3:
+    if cls in ("PoissonLoss", "GammaLoss", "NegBinomLoss") and yhat.min() < min_yhat:
         return None
     noise_free = force_noise_free if force_noise_free is not None else (cls in ("SquareLoss", "NormalLoss") and rng.random() < 0.5)
     if noise_free:
@@ -992,7 +1023,7 @@ def gen_loss_def(rng, lid, ref, name, theta_true, x0, t0, tmax, box, pos, classe
         y = np.maximum(y, 0.0)
     if cls == "GammaLoss":
         y = np.maximum(y, 1e-3)
-    d = {"op": "loss_new", "id": lid, "cls": cls, "states": states, "obs_t": obs_t, "y": y.tolist(),
+    d = {"op": "loss_new", "id": lid, "cls": cls, "states": states, "obs_t": obs_t, "obs_as": obs_as, "y": y.tolist(),
          "noise_free": bool(noise_free and cls in ("SquareLoss", "NormalLoss"))}
     T = len(obs_t)
     if ns == 1:
